@@ -9,7 +9,7 @@ def esc(s): return s.replace('|', '\\|').replace('\n', ' ')
 rows = ['| Seeded change | Round | What it needs to manifest | Caught by |', '|---|---|---|---|']
 for m in sorted(glob.glob(R + '/seeded/*/meta.json')):
     d = json.load(open(m)); sid = os.path.basename(os.path.dirname(m))
-    rnd = '2' if '-r2-' in sid else '1'
+    rnd = '3' if '-r3-' in sid else ('2' if '-r2-' in sid else '1')
     rows.append('| %s | %s | %s | %s |' % (sid, rnd, esc(d.get('needs_to_manifest', ''))[:420], esc(d.get('detected_by', ''))))
 k = json.load(open(R + '/known_findings.json'))['entries']
 fixed = ['* **%s** `%s` - %s' % (e['property'], e['commit'], e['what']) for e in k if e['status'] == 'fixed']
